@@ -4,6 +4,7 @@ Property theorems only; helper lemmas live in `KrillModel/Ca/Lemmas*.lean`.
 -/
 import KrillModel.Ca.LemmasDomain
 import KrillModel.Ca.LemmasReach
+import KrillModel.Ca.LemmasRoll
 namespace KM.Props.C04
 open KM KM.CaK KM.AMap KM.Generated.ApplyDomain
 
@@ -164,5 +165,102 @@ theorem single_signer {s : Sys} (h : Reachable s) : s.singleSigner = true := by
     cases hg : get s.ca.classes r with
     | none => rw [hg] at this; simp [ClsInv] at this
     | some rc => rw [hg] at this; exact this.2.2 ok rfl
+
+/-! ## A second roll request is a no-op -/
+
+/-- `append_keyroll_initiate` emits nothing unless the class is `Active`. -/
+theorem initiate_nonactive_emits_nothing (ks : KeyState) (k : KeyId) (h : ks.variant ≠ .active) :
+    ks.keyrollInitiate k = [] := by
+  cases ks <;> simp [KeyState.keyrollInitiate, KeyState.variant] at h ⊢
+
+/-- Every event of a key-roll initiate is about a class that is `Active`. -/
+theorem initiate_only_active {s : Sys} {fresh : AMap Rcn KeyId} {evs : List Ev} (h : Reachable s)
+    (hp : s.ca.process (.keyrollInit fresh) = .ok evs) :
+    ∀ e ∈ evs, ∃ r rc c, e.rcn? = some r ∧ get s.ca.classes r = some rc ∧ rc.keys = .active c := by
+  intro e he
+  have hnd := (reachable_inv h).core.nodup
+  simp only [Ca.process] at hp
+  split at hp
+  · simp only [Except.ok.injEq] at hp; subst hp; cases he
+  · split at hp
+    · cases hp
+    · rw [keyrollInitLoop_eq] at hp
+      obtain ⟨p, hpm, a, ha, hea⟩ := mem_forClasses hp he
+      cases hk : p.2.keys with
+      | active c =>
+        refine ⟨p.1, p.2, c, ?_, classes_get_of_mem hnd p hpm, hk⟩
+        have hon := (initClass_ready fresh p.1 p.2 a ha).1 e hea
+        cases e <;> simp [Ev.onClass] at hon <;> simp [Ev.rcn?]
+        · rename_i r' ke
+          cases ke <;> simp [Ev.onClass] at hon <;> exact hon
+        · exact hon
+        · exact hon
+      | pending _ => rw [initClass_nonactive (by simp [hk, KeyState.variant]) ha] at hea; cases hea
+      | rollPending _ _ => rw [initClass_nonactive (by simp [hk, KeyState.variant]) ha] at hea; cases hea
+      | rollNew _ _ => rw [initClass_nonactive (by simp [hk, KeyState.variant]) ha] at hea; cases hea
+      | rollOld _ _ => rw [initClass_nonactive (by simp [hk, KeyState.variant]) ha] at hea; cases hea
+
+/-- After a stored key-roll initiate no class is `Active`, so a second initiate – with whatever
+new keys – emits no event (and so changes nothing): a second roll request during a roll is a
+no-op. -/
+theorem second_roll_noop {s s' : Sys} {f1 f2 : AMap Rcn KeyId} {evs evs2 : List Ev} (h : Reachable s)
+    (hex : s.exec (.keyrollInit f1) = .stored evs s')
+    (hp2 : s'.ca.process (.keyrollInit f2) = .ok evs2) : evs2 = [] := by
+  have hinv := reachable_inv h
+  have hnd := hinv.core.nodup
+  obtain ⟨hp, hr⟩ := exec_stored_iff.mp hex
+  have hs' : Reachable s' := by
+    have := Reachable.step (.keyrollInit f1) h
+    unfold Sys.next at this; rw [hex] at this; exact this
+  have hnd' := (reachable_inv hs').core.nodup
+  obtain ⟨ca', o'⟩ := s'
+  obtain ⟨hs, _⟩ := runEvs_some_iff.mp hr
+  -- no class of the new state is active
+  have hnon : ∀ p ∈ ca'.classes, p.2.keys.variant ≠ .active := by
+    simp only [Ca.process] at hp
+    split at hp
+    · rename_i hemp
+      simp only [Except.ok.injEq] at hp; subst hp
+      simp only [Ca.applyAll, Option.some.injEq] at hs; subst hs
+      intro p hpm
+      simp only [List.isEmpty_iff] at hemp
+      rw [hemp] at hpm; cases hpm
+    · split at hp
+      · cases hp
+      · rw [keyrollInitLoop_eq] at hp
+        obtain ⟨h1, h2⟩ := forClasses_post (fun rc => rc.keys.variant ≠ .active)
+          (fun r rc evs h => ⟨(initClass_ready f1 r rc evs h).1, initClass_post f1 r rc evs h⟩)
+          hnd (classes_get_of_mem hnd) hp hs
+        intro p hpm
+        have hgp := get_of_mem_nodup hnd' hpm
+        by_cases hin : p.1 ∈ keys s.ca.classes
+        · obtain ⟨q, hq, hq1⟩ := List.mem_map.mp hin
+          obtain ⟨rc', hg', hQ⟩ := h1 q hq
+          rw [hq1] at hg'
+          simp only at hgp
+          rw [hgp] at hg'; cases hg'; exact hQ
+        · have := h2 p.1 hin
+          simp only at hgp
+          rw [hgp] at this
+          have hnone : get s.ca.classes p.1 = none := by
+            cases hg : get s.ca.classes p.1 with
+            | none => rfl
+            | some rc => exact absurd (mem_keys_of_get hg) hin
+          rw [hnone] at this; cases this
+  simp only [Ca.process] at hp2
+  split at hp2
+  · simp only [Except.ok.injEq] at hp2; exact hp2.symm
+  · split at hp2
+    · cases hp2
+    · rw [keyrollInitLoop_eq] at hp2
+      exact forClasses_nil hp2 (fun p hpm a ha => initClass_nonactive (hnon p hpm) ha)
+
+/-- Non-vacuity: a roll in progress, a second initiate. -/
+example :
+    let s := Sys.run {} [.repoUpdate [], .addParent 9,
+      .updateEntitlements 9 [⟨0, [1, 2], 100, []⟩] 0 [4],
+      .updateRcvdCert 0 4 { res := [1, 2], na := 100 } 50 [], .keyrollInit [(0, 5)]]
+    (get s.ca.classes 0).map (·.keys.variant) = some .rollPending ∧
+    s.ca.process (.keyrollInit [(0, 6)]) = .ok [] := by decide
 
 end KM.Props.C04
